@@ -481,7 +481,7 @@ def model_rows(ctx, cmd: str, text: str) -> Any:
     return rows
 
 
-def parser_vs_model(run, pname: str, cmd: str, names: List[str], case, text: str, path: Path, blank_filter: bool, rng) -> None:
+def parser_vs_model(run, pname: str, cmd: str, names: List[str], case, text: str, path: Path, blank_filter: bool, rng, label: str = "") -> None:
     """the library's parser and the Lean parser model on the same bytes: the written file and, for a sample, variants
     of it that reach the other branches of the line handling (comment lines, trailing comments, blank lines, CRLF)"""
     ctx = run.ctx
@@ -509,7 +509,7 @@ def parser_vs_model(run, pname: str, cmd: str, names: List[str], case, text: str
             f.write(vt)
         variants.append((k, vt, vp))
     for k, vt, vp in variants:
-        ctx.count(f"parser-model:{pname}:{k}")
+        ctx.count(f"parser-model:{label or pname}:{k}")
         impl = real_rows(pname, vp, names, blank_filter)
         model = model_rows(ctx, cmd, vt)
         if impl != model:
@@ -599,6 +599,11 @@ def case_crd(run: Run, rng, vel: bool, si=None):
         # the read-back the oracle below demands from the real code
         in_range = ht is not None and drv.ask1(f"c17 crdrange {','.join(hexs(t) for t in ht)} {int(write_nan)} {stations_arg(si, vel)}") == "1"
         ctx.count("crd-roundtrip-range:" + ("inside" if in_range else "outside"))
+    if vel and ht is not None:
+        # the library has no VEL parser; its CRD parser reads the file (vel_file_roundtrip): parser vs Lean parser model
+        parser_vs_model(run, "bernese_crd", "crdparse", CRD_NAMES, case, text, run.last_path, False, rng, label="bernese_crd-on-vel")
+        in_range = drv.ask1(f"c17 velrange {','.join(hexs(t) for t in ht)} {int(write_nan)} {stations_arg(si, vel)}") == "1"
+        ctx.count("vel-roundtrip-range:" + ("inside" if in_range else "outside"))
     if beyond:
         return
     # ---- oracle: columns kept, read-back
@@ -608,6 +613,21 @@ def case_crd(run: Run, rng, vel: bool, si=None):
     if len(body) != len(expected):
         ctx.violate(f"{writer}:row-count", f"{len(expected)} stations with coordinates, {len(body)} lines written", case)
     if vel:
+        # read-back through the CRD parser of the library (it reads the first seven columns of a *.VEL file)
+        with quiet():
+            try:
+                vback = parsers.parse_file("bernese_crd", run.last_path).as_dict()
+            except Exception as e:
+                vback = None
+                ctx.violate("bernese_vel:readback-raises", f"the bernese_crd parser cannot read the *.VEL file: {type(e).__name__}: {e}", case)
+        if vback is not None:
+            for k, d in expected.items():
+                want = [float(v) for v in d["site_coord"]["last"].vel]
+                b = vback.get(k)
+                if b is None or not all(near(b[c], w, 5) for c, w in zip(("pos_x", "pos_y", "pos_z"), want)) or \
+                        str(b["domes"]) != (d["identifier"].domes or "") or str(b["flag"]) != "A":
+                    ctx.violate("bernese_vel:readback-values", f"{k}: wrote velocity {want}, the CRD parser reads {b}", case)
+                    break
         # no matching parser in the library: the values are read off the text (blank-separated, as Bernese does)
         for l, (k, d) in zip(body, sorted(expected.items())):
             toks = l.split()
@@ -840,6 +860,15 @@ def case_sta(run: Run, rng, si=None):
             d = si[k]
             for e in entries:
                 t = e["date_from"]
+                # the record claims its equipment for the whole interval [date_from, date_to): the site information must have
+                # a receiver, an antenna and an eccentricity installed throughout (no interruption inside the interval)
+                gap = [kind for kind in ("receiver", "antenna", "eccentricity") if not sta_covered(d[kind].history, t, e["date_to"])]
+                if gap:
+                    ctx.violate(f"bernese_sta:record-spans-interruption:{pname}", f"{k}: the TYPE 002 record {t} - {e['date_to']} claims "
+                                f"equipment for an interval in which the site information has no {'/'.join(gap)} all the time "
+                                f"(histories: receiver {hist(d, 'receiver')}, antenna {hist(d, 'antenna')}, eccentricity "
+                                f"{hist(d, 'eccentricity')})", case)
+                    return
                 def at(h):
                     for (a, b), o in sorted(h.items()):
                         if a <= t < b:
@@ -870,6 +899,17 @@ def sta_at(history, t):
     return None
 
 
+def sta_covered(history, a, b) -> bool:
+    """the entries of an equipment history cover [a, b) without interruption"""
+    t = a
+    while t < b:
+        nxt = [q for (p, q) in history if p <= t < q]
+        if not nxt:
+            return False
+        t = max(nxt)
+    return True
+
+
 def sta_expected_starts(d, skip_firmware: bool):
     """start dates of the TYPE 002 records the site information asks for: every equipment change (start of an entry of
     the receiver, antenna or eccentricity history; with skip_firmware not the receiver entries that repeat type and serial
@@ -885,6 +925,9 @@ def sta_expected_starts(d, skip_firmware: bool):
         ev.add(a)
     ev |= {a for (a, b) in d["antenna"].history} | {a for (a, b) in d["eccentricity"].history}
     ev.add(list(d["eccentricity"].history)[-1][1])
+    for kind in ("receiver", "antenna", "eccentricity"):  # the end of an entry after which the history does not go on
+        starts = {a for (a, b) in d[kind].history}
+        ev |= {b for (a, b) in d[kind].history if b not in starts}
     evs = sorted(ev)
     return [t for t in evs[:-1] if all(sta_at(d[kind].history, t) is not None for kind in ("receiver", "antenna", "eccentricity"))]
 
@@ -1105,6 +1148,8 @@ def tms_one_station(run: Run, rng, dft, d, sta, has_east, nsta):
             v = tms_value(d, fieldof[c], i)
             env.append(f"{c}={sval(str(v)) if isinstance(v, str) else val(v)}")
         eps.append(f"{t_us[i]}@" + ";".join(env))
+    in_range = drv.ask1(f"c17 tmsrange {','.join(cols)} {'|'.join(eps) or '[]'}") == "1"
+    ctx.count("tms-data-roundtrip-range:" + ("inside" if in_range else "outside"))
     model = unhex_lines(drv.ask1(f"c17 tmsdata {','.join(cols)} {'|'.join(eps) or '[]'}"))
     model = None if model is None else [l + "\n" for l in model]
     if model != body:
